@@ -6,6 +6,8 @@ import (
 	"encoding/json"
 	"errors"
 	"fmt"
+	"math"
+	"slices"
 	"strconv"
 	"strings"
 
@@ -395,10 +397,17 @@ func TypedValueToYANGType(tv *sdcpb.TypedValue, schemaObject *sdcpb.SchemaElem) 
 	case *sdcpb.TypedValue_DoubleVal:
 		return tv, nil
 	case *sdcpb.TypedValue_IntVal:
+		// a number given with the other signedness than the one of the leaf is the same number
+		if isLeafOfType(schemaObject, "uint8", "uint16", "uint32", "uint64") && tv.GetIntVal() >= 0 {
+			return &sdcpb.TypedValue{Timestamp: tv.GetTimestamp(), Value: &sdcpb.TypedValue_UintVal{UintVal: uint64(tv.GetIntVal())}}, nil
+		}
 		return tv, nil
 	case *sdcpb.TypedValue_StringVal:
 		return ConvertToTypedValue(schemaObject, tv.GetStringVal(), tv.GetTimestamp())
 	case *sdcpb.TypedValue_UintVal:
+		if isLeafOfType(schemaObject, "int8", "int16", "int32", "int64") && tv.GetUintVal() <= math.MaxInt64 {
+			return &sdcpb.TypedValue{Timestamp: tv.GetTimestamp(), Value: &sdcpb.TypedValue_IntVal{IntVal: int64(tv.GetUintVal())}}, nil
+		}
 		return tv, nil
 	case *sdcpb.TypedValue_JsonIetfVal: // TODO:
 	case *sdcpb.TypedValue_JsonVal: // TODO:
@@ -410,6 +419,20 @@ func TypedValueToYANGType(tv *sdcpb.TypedValue, schemaObject *sdcpb.SchemaElem) 
 		return tv, nil
 	}
 	return tv, nil
+}
+
+// isLeafOfType reports whether the schema element is a leaf or leaf-list of one of the given built-in types
+func isLeafOfType(schemaObject *sdcpb.SchemaElem, types ...string) bool {
+	var t string
+	switch {
+	case schemaObject.GetField() != nil:
+		t = schemaObject.GetField().GetType().GetType()
+	case schemaObject.GetLeaflist() != nil:
+		t = schemaObject.GetLeaflist().GetType().GetType()
+	default:
+		return false
+	}
+	return slices.Contains(types, t)
 }
 
 func ConvertToTypedValue(schemaObject *sdcpb.SchemaElem, v string, ts uint64) (*sdcpb.TypedValue, error) {
